@@ -612,6 +612,28 @@ pub fn enumerate_c19(file: &CorpusFile, thorough: bool) -> Vec<Variant> {
             if i + 1 < lines.len() {
                 push(Edit::CrlfFlipLine { line: i });
             }
+            // record-type and separator bytes of the small line-oriented side files
+            if file.kind == FileKind::Kyg || file.kind == FileKind::Tbl {
+                let mut cols: Vec<usize> = vec![0];
+                cols.extend(
+                    b.iter()
+                        .enumerate()
+                        .filter(|(_, c)| **c == b';' || **c == b'"')
+                        .map(|(k, _)| k)
+                        .take(3),
+                );
+                cols.dedup();
+                for col in cols {
+                    if col >= b.len() {
+                        continue;
+                    }
+                    let c = b[col];
+                    if (0x21..0x7f).contains(&c) && (0x20..0x7f).contains(&(c ^ 1)) {
+                        let cell = format!("{}|disk.byte_flip@{}", cellbase, if col == 0 { "first" } else { "separator" });
+                        out.push(Variant { edit: Edit::ByteFlip { line: i, col }, cell });
+                    }
+                }
+            }
         }
     }
     if thorough {
